@@ -327,6 +327,28 @@ def derive(h, src, to, rng):
             h.sh[to] = Shadow(s.dl, [v for v in s.xs if pred(p, v, s.dl)])
 
 
+def reuse_ops(dl, cap, ex, first_default, vals, k=0):
+    """an array at slot k is destroyed and immediately re-created at the same slot with the same element
+    size on the OTHER allocator triple (no allocation in between, so the new header very likely reuses
+    the old address); then every builder derives from it and each derived array is grown.  A library
+    that cached a configuration per parent address would hand the derived arrays the stale triple."""
+    o = f" o={k}" if k else ""
+    ctor_a = f"new_default esize={dl}{o}" if first_default else f"new esize={dl} cap={cap} exp={ex}{o}"
+    ctor_b = f"new esize={dl} cap={cap} exp={ex}{o}" if first_default else f"new_default esize={dl}{o}"
+    cap_b = cap if first_default else 8
+    ops = [ctor_a] + [f"add {v}{o}" for v in vals[:3]] + [f"drop o={k}", ctor_b]
+    kept = vals[3:6] if len(vals) >= 6 else vals[:3]
+    ops += [f"add {v}{o}" for v in kept]
+    slots = [x for x in range(4) if x != k][:3]
+    ops += [f"mk_copy to={slots[0]}{o}", f"mk_sub 0 1 to={slots[1]}{o}", f"mk_filter p=all to={slots[2]}{o}"]
+    n = len(kept)
+    grow = {slots[0]: max(cap_b, n) - n + 1, slots[1]: 1, slots[2]: max(cap_b, n) - n + 1}
+    for t in slots:
+        ops += [f"add {50 + j} o={t}" for j in range(min(grow[t], 12))] + [f"capacity o={t}"]
+    ops += ["observe"] + [f"drop o={t}" for t in slots]
+    return ops, kept
+
+
 def sparsify(ops, rng):
     """sparse observation mode (CONVENTIONS addendum 2): the constructor line gets `obs=sparse`, the
     content is only looked at by an `observe` every 5-15 operations and one before `destroy`"""
@@ -462,8 +484,22 @@ class ArraySizedGen:
         out.append(["new esize=2 cap=2 exp=2", "add 1", "add 2", "zit_new o=0 o2=0", "zit_next", "zit_add 8 9 fail=1", "zit_add 8 9", "zit_next", "destroy"])
         return out
 
-    def _small_derived(self, quick):
+    def _small_reuse(self):
         out = []
+        for dl in (1, 3, 17):
+            for cap in (1, 2, 3):
+                for first_default in (False, True):
+                    for k in (0, 2):
+                        ops, _ = reuse_ops(dl, cap, "1.5", first_default, [1, 2, 3, 4, 5, 6], k)
+                        out.append(ops + [f"drop o={k}", "destroy"])
+        # twice in a row: conf -> libc -> conf at the same slot
+        ops1, _ = reuse_ops(2, 2, "2", False, [1, 2, 3, 4, 5, 6])
+        ops2, _ = reuse_ops(2, 2, "2", True, [7, 8, 9, 10, 11, 12])
+        out.append(ops1 + ["drop o=0"] + ops2 + ["destroy"])
+        return out
+
+    def _small_derived(self, quick):
+        out = self._small_reuse()
         for dl in (1, 3):
             for n in range(0, 5):
                 base = [f"new esize={dl} cap=2 exp=1.5"] + [f"add {i + 1}" for i in range(n)]
@@ -608,6 +644,13 @@ class ArraySizedGen:
         ex = rng.choice(FACTORS)
         p_default = {None: 0.04, "reject": 0.0}.get(focus, 0.1)
         h = Hist(rng, dl, cap, ex, make_pool(rng, dl), default=(rng.random() < p_default))
+        if focus in ("derived", "all") and rng.random() < (0.25 if focus == "derived" else 0.12):
+            # early in the history: destroy + re-create at the same slot on the other allocator triple
+            first_default = h.ops[0].startswith("new_default")
+            vals = [h.val() for _ in range(6)]
+            ops, kept = reuse_ops(dl, cap, ex, first_default, vals)
+            h.ops = ops
+            h.sh = {0: Shadow(dl, [v % 256 ** dl for v in kept])}
         if focus == "reject" and rng.random() < 0.05:
             # a constructor call that must be rejected (or refused): the rest of the history has no object
             return [rng.choice(self._extreme_news()), "add 1", "size", "destroy"]
